@@ -18,10 +18,14 @@ def handle (j : Json) : Except String Json := do
     let mIdx := ndsIdx pts order
     let rows := permuteBy pts order
     let lit := (loopIdx rows.length rows 0).map (·.1)
+    let sorted := frontSortedIdx pts order
     return Json.mkObj [("ok", true),
-      ("model_mask", ofBools mMask), ("model_idx", ofNats mIdx), ("literal_idx", ofNats lit),
+      ("model_mask", ofBools mMask), ("model_idx", ofNats mIdx), ("literal_idx", ofNats lit), ("sorted_idx", ofNats sorted),
       ("spec_mask", checkMask pts mask), ("spec_idx", checkSel pts idx),
       ("spec_model", checkSel pts mIdx)]
+  | "ipe" =>
+    let new ← jList jRat (← field j "new")
+    return Json.mkObj [("ok", true), ("model", isParetoEfficient new pts)]
   | "ranked" =>
     -- orders = what argsort returned in each peeling round (indices into the remaining rows)
     let req ← jInt (← field j "req")
